@@ -225,6 +225,13 @@ func runProperty(prop *propertySpec, ctxs []*Ctx, known *knownFile, tier, evdir,
 		fmt.Printf("VIOLATION property=%s replay=%s\n", prop.ID, rp)
 		code = 1
 	}
+	for _, l := range out.lost {
+		fmt.Printf("ANCHOR-LOST: %s\n", l)
+	}
+	if len(out.violations) == 0 && len(out.lost) > 0 {
+		fmt.Printf("CHECKER-ERROR property=%s: a trigger anchor of the rules no longer resolves; the check cannot decide\n", prop.ID)
+		code = 2
+	}
 	if len(out.violations) == 0 && (len(out.undecided) > 0 || len(out.vacuous) > 0) {
 		for _, u := range out.undecided {
 			fmt.Printf("UNDECIDED property=%s %s @ %s — %s\n", prop.ID, u.Key, u.Pos, u.Detail)
@@ -301,24 +308,26 @@ var supporting = map[string]struct {
 	rules []func(*Ctx) *rule
 	why   string
 }{
-	"C01": {[]func(*Ctx) *rule{ruleHS2, ruleHS3, ruleHS5, ruleHE1, ruleGL1, ruleGL2, ruleGL3, ruleGL4},
-		"the digest compared by CP1 stands for 'paths and contents' only if every listed file's whole content and path reach it (HS2, HS3, HS5), a failed hashing stops the run (HE1), and every file matching a glob dependency is in the hashed list (GL1-GL4)."},
-	"C02": {[]func(*Ctx) *rule{ruleHS1, ruleHS2, ruleHS5, ruleGL3, ruleTK5},
+	"C01": {[]func(*Ctx) *rule{ruleHS2, ruleHS3, ruleHS5, ruleHS6, ruleHS7, ruleHE1, ruleGL1, ruleGL2, ruleGL3, ruleGL4},
+		"the digest compared by CP1 stands for 'paths and contents' only if every listed file's whole content and path reach it (HS2, HS3, HS5), a failed hashing stops the run (HE1), no digest is a constant that could equal the cache's 'never succeeded' (HS6), and every file matching a glob dependency is in the hashed list (GL1-GL4)."},
+	"C02": {[]func(*Ctx) *rule{ruleHS1, ruleHS2, ruleHS5, ruleHS7, ruleGL3, ruleTK5},
 		"an unchanged input set is only skipped if it hashes to the recorded digest again: the digest must not depend on arrival order (HS1) or on anything but path and content (HS2, HS5), the expansion root and pattern must be the same every time (GL3), and a plain file must not be taken for a pattern that matches nothing (TK5)."},
-	"C05": {[]func(*Ctx) *rule{ruleTK5},
-		"which strings are globs at all (TK5)."},
+	"C05": {[]func(*Ctx) *rule{ruleTK5, ruleHS7},
+		"which strings are globs at all (TK5); the remembered expansion of a pattern is handed to the hasher, which must leave it as it is (HS7)."},
 	"C08": {[]func(*Ctx) *rule{ruleTL3, ruleTL4},
 		"'every syntax error cites a line number between 1 and the number of lines' needs the lexer's line counter to move on newlines only (TL3) and the scan position not to jump over text without counting (TL4)."},
-	"C09": {[]func(*Ctx) *rule{ruleCP1, ruleCP10},
-		"a failed task is 'not treated as up to date by later runs' because its digest is not recorded (CP8), the old one is only restored (CP10), and 'skipped' requires digest equality (CP1)."},
+	"C09": {[]func(*Ctx) *rule{ruleCP1, ruleCP10, ruleHS6},
+		"a failed task is 'not treated as up to date by later runs' because its digest is not recorded (CP8), the old one is only restored (CP10), and 'skipped' requires digest equality (CP1) with a digest that can never be the empty 'never succeeded' entry (HS6)."},
+	"C10": {[]func(*Ctx) *rule{ruleHS6},
+		"the invalidation written before the commands start is the empty string: it only invalidates if no digest can be the empty string (HS6)."},
 	"C12": {[]func(*Ctx) *rule{ruleGL1, ruleGL3, ruleTK5, ruleAB2, ruleFD4},
 		"'files matching output globs' are those the shared expansion finds (GL1, GL3, TK5); 'the spokfile' and 'the directory containing it' are what discovery settled (AB2, FD4)."},
 	"C15": {[]func(*Ctx) *rule{ruleFX2, ruleST9},
 		"what --fmt leaves in the file is the formatted text and nothing else (FX2: one write of Tree.String() that replaces the file); a docstring or comment used as a printf format is garbled wherever it contains a % (ST9)."},
-	"C14": {[]func(*Ctx) *rule{ruleCP1, ruleCP3("CP3L"), ruleCP6, ruleGL4, ruleCP12},
+	"C14": {[]func(*Ctx) *rule{ruleCP1, ruleCP3("CP3L"), ruleCP6, ruleGL4, ruleCP12, ruleHS6},
 		"'a forced run does not damage the cache' is C01 after a forced run: the digest a forced run records must be the one of the inputs its commands ran on (CP1, CP3L), computed over all inputs, globs expanded (CP6, GL4), and the persisted file must be exactly that map (CP12)."},
-	"C19": {[]func(*Ctx) *rule{ruleAB1, ruleAB2, ruleFD4, ruleGR5, ruleEN4},
-		"'its cache directory next to the spokfile' is the project root handed to file.New (AB1, AB2, FD4); '--fmt rewrites only when the spokfile loads' needs file.New to fail on what does not load (GR5 duplicate tasks, EN4 failing builtins)."},
+	"C19": {[]func(*Ctx) *rule{ruleAB1, ruleAB2, ruleFD4, ruleGR5, ruleEN4, ruleEN3},
+		"'its cache directory next to the spokfile' is the project root handed to file.New (AB1, AB2, FD4); '--fmt rewrites only when the spokfile loads' needs file.New to fail on what does not load (GR5 duplicate tasks, EN4 failing builtins, EN3 every command goes through the template, whose errors are load errors)."},
 	"C20": {[]func(*Ctx) *rule{ruleGR8, ruleEN3, ruleTK4},
 		"'a single JSON document' needs one SpokFile.Run per invocation (GR8); 'its interpolated text' is the text/template expansion of each command, one entry per command (EN3, TK4)."},
 }
